@@ -164,7 +164,8 @@ class Gen:
                     if scal(fld["t"]):
                         cands.append((A.mem(A.var(n), fld["n"]), fld["t"]))
             elif vt["k"] == "vec" and self.f["vectors"]:
-                cands.append((A.idx(A.var(n), A.lit_i(self.r.randrange(vt["n"]))), {"k": vt["c"]}))
+                j = self.r.randrange(vt["n"])
+                cands.append((A.idx(A.var(n), A.lit_i(j)) if self.chance(0.5) else A.swz(A.var(n), [j]), {"k": vt["c"]}))
         return self.pick(cands) if cands else None
 
     def assign(self, env):
